@@ -20,6 +20,20 @@ NA = {
 }
 
 CHECKS = {
+    "C03": dict(
+        technique="layout-descriptor extraction and sibling agreement (validator vs introspection), constant folding of the helpers over "
+                  "every attribute spec, loop-shape check, guard chains evaluated over the complete per-attribute abstraction, escape analysis",
+        text="Partial: the wiring and the three guard predicates are decided over the abstraction the property names "
+             "({absent, listed, unlisted} x {foreign}); the introspection helpers are folded over all 89 attribute specs.",
+        note="guards are evaluated per attribute on a four-attribute abstract rule; independence of iterations follows from the loop shape",
+        ref="DESIGN.md section 3, C03"),
+    "C05": dict(
+        technique="marker dataflow (dominance / must-pass) over all paths of validate.tree, loop-shape and iterable classification, "
+                  "constant agreement across the three metadata tests, dominance of child dereferences by the non-metadata outcome",
+        text="Close to complete for how node verdicts are combined: the traversal is small enough that its shape is the property; "
+             "per-node verdicts are C01-C04's subject.",
+        note="order-preserving snapshot idioms recognised: direct, list(), tuple(), iter(), .copy(), [:], enumerate()",
+        ref="DESIGN.md section 3, C05"),
     "C01": dict(
         technique="guard-fact dataflow (cursor invariant, bounded reads), escape analysis of the matcher slice in both modes, "
                   "marker dataflow over all paths (trailing check / sweep dominance), flag dataflow, guard conditions evaluated at boundary points",
